@@ -52,25 +52,50 @@ Fixpoint known_weak_fit (a : ty) : bool :=
   | _ => false
   end.
 
-(* C12-2 / C12-3: where Ty::max can return a type that does not accept an operand.
-   Follows max's own recursion (Optional/Optional, ErrorUnion/ErrorUnion):
-     1 = the distinct arms (one operand is `distinct`, the other a different type):
-         max answers with the distinct type whenever the distinct's underlying type fits
-         into the other operand (has_semantics_of), not the other way round;
-     2 = two zero-sized variants of different enums, or a zero-sized type and `type`, below
-         an optional / error union: max answers `type` and ?type does not accept ?variant *)
+(* C12-2 / C12-3: exactly where Ty::max returns a type that does not accept an operand.
+   Follows max's own recursion (Optional/Optional, ErrorUnion/ErrorUnion); [depth] says we
+   are below such a sum (there the result must satisfy can_fit_into itself, the `type`
+   shortcut of expect_match does not apply).
+     1 = the distinct arms: max answers with the distinct type because its underlying type
+         fits into the other operand (has_semantics_of), although the other operand does
+         not fit into the distinct type;
+     2 = below a sum: two zero-sized variants of different enums, or a zero-sized type and
+         `type`: max answers `type`, and ?type does not accept ?variant *)
 Fixpoint known_max (depth : bool) (a b : ty) {struct a} : N :=
   if ty_eqb a b then 0 else
   match a, b with
-  | _, Distinct _ _ | Distinct _ _, _ => 1
+  | _, Distinct _ _ => if has_semantics_of b a && negb (fit a b) then 1 else 0
+  | Distinct _ _, _ => if has_semantics_of a b && negb (fit b a) then 1 else 0
   | Variant e1 _ _ _ _, Variant e2 _ _ _ _ =>
       if depth && negb (N.eqb e1 e2) && is_zero_sized a && is_zero_sized b then 2 else 0
-  | _, TType | TType, _ => if depth then 2 else 0
+  | x, TType | TType, x => if depth && is_zero_sized x then 2 else 0
   | Optional l, Optional r => known_max true l r
   | ErrorUnion le lp, ErrorUnion re rp =>
       match known_max true le re with 0 => known_max true lp rp | c => c end
   | _, _ => 0
   end%N.
+
+(* what "accepts both" means at the top level / below a sum *)
+Definition max_accepts (depth : bool) (a b c : ty) : bool :=
+  if depth then fit a c && fit b c else accepts a c && accepts b c.
+
+(* every enum registered under uid u is an enum with uid u (set_enum_uid asserts it) *)
+Definition wf_enum_map (m : enum_map) : Prop :=
+  forall u t, get_enum m u = Some t -> exists vs, t = Enum u vs.
+
+(* where the order of max's operands matters: the two placeholder types against each other
+   (`(Unknown | AlwaysJumps, other) | (other, Unknown | AlwaysJumps) => other`), and two
+   different `distinct` types carrying the same uid (impossible for types made by one
+   UIDGenerator), possibly below optionals / error unions *)
+Fixpoint known_order (a b : ty) {struct a} : bool :=
+  if ty_eqb a b then false else
+  match a, b with
+  | Unknown, AlwaysJumps | AlwaysJumps, Unknown => true
+  | Distinct u1 _, Distinct u2 _ => N.eqb u1 u2
+  | Optional l, Optional r => known_order l r
+  | ErrorUnion le lp, ErrorUnion re rp => known_order le re || known_order lp rp
+  | _, _ => false
+  end.
 
 (* ---- C13: where may a nominal value be accepted -------------------------- *)
 Inductive ntarget_kind : Type :=
